@@ -73,17 +73,17 @@ theorem C03_log_preserved (lim : Option (Limiter.Cfg × Limiter.St)) (now : Nat)
   have g := run_good ops _ (init_inv lim now) hc
   exact ⟨g.1.fits, g.1.log_safe⟩
 
-/-- `MultiProgress::println` always prints: whatever the limiter state, its lines (and any text queued by
-`ProgressBar::println`) are appended to the log by the call itself -/
+/-- `MultiProgress::println` always prints: whatever the limiter state, its lines — as the rows they wrap to at the terminal
+width — (and any text queued by `ProgressBar::println`) are appended to the log by the call itself -/
 theorem C03_println_logged (w : RW) (t : Text) (hp : w.panicked = false) :
-    (step w (.mpPrintln t)).log = w.log ++ (textRows t ++ w.orphan) := by
+    (step w (.mpPrintln t)).log = w.log ++ (textRowsW w.wrapW t ++ w.orphan) := by
   simp only [step, hp, Bool.false_eq_true, if_false]
-  exact draw_forced_log w (textRows t)
+  exact draw_forced_log w (textRowsW w.wrapW t)
 
 /-- … and so does `ProgressBar::println` of a member bar -/
 theorem C03_bar_println_logged (w : RW) (k : Nat) (t : Text) (hk : k < w.bars.length)
     (ha : (w.barAt k).alive = true) (hm : (w.barAt k).member = true) :
-    (barStep w k (.println t)).log = w.log ++ (w.orphan ++ textRows t) := by
+    (barStep w k (.println t)).log = w.log ++ (w.orphan ++ textRowsW w.wrapW t) := by
   have hk' : ¬ k ≥ w.bars.length := by omega
   simp only [barStep, hk', if_false, ha, hm, Bool.not_true, Bool.false_eq_true, barDraw, Bool.true_or]
   rw [draw_forced_log]
@@ -98,5 +98,16 @@ example :
       .mpPrintln (l 51)]
     CleanRun {} ops ∧ (run {} ops).log = [l 49, l 50, l 51] ∧ (run {} ops).scr = [l 49, l 50, l 51] := by
   refine ⟨⟨trivial, trivial, trivial, trivial, trivial, trivial, trivial, trivial⟩, ?_, ?_⟩ <;> decide +kernel
+
+/-- non-vacuity with wrapping: on a terminal of 3 columns a five-column log line and a bar whose rendering is six columns wide
+take two rows each; after the bar is finished and dropped and another line is printed, every row is where it belongs -/
+example :
+    let l (cs : List Nat) : Text := cs.map (fun c => ⟨c, 1⟩)
+    let ops : List MOp := [.mpPrintln (l [104, 101, 108, 108, 111]),
+      .add 0 0 (some 10) 1 .andLeave (l [65]), .bar 0 .tick, .bar 0 (.finish .andLeave), .bar 0 .drop, .mpPrintln (l [120])]
+    CleanRun { wrapW := 3 } ops ∧
+    (run { wrapW := 3 } ops).log = [l [104, 101, 108], l [108, 111], l [120]] ∧
+    ((run { wrapW := 3 } ops).scr.take 2 = [l [104, 101, 108], l [108, 111]]) := by
+  refine ⟨⟨trivial, trivial, trivial, trivial, trivial, trivial, trivial⟩, ?_, ?_⟩ <;> decide +kernel
 
 end IndicatifModel.Rows
